@@ -57,6 +57,14 @@ func judgeBash(c *Check, bc BashCase) caseOutcome {
 		if strings.HasPrefix(ref.Undefined, "interpreter:") {
 			fatalf("oracle fault on %s: %s\n%s", bc.Key, ref.Undefined, RenderFile(bc.Prog.Files[0]))
 		}
+		if !strings.Contains(bc.Key, "random/") {
+			c.mu.Lock()
+			l, _ := c.Extra["enumerated_cases_discarded_as_undefined"].([]string)
+			if len(l) < 60 {
+				c.Extra["enumerated_cases_discarded_as_undefined"] = append(l, bc.Key+": "+ref.Undefined)
+			}
+			c.mu.Unlock()
+		}
 		c.Discard()
 		return outcomeDiscarded
 	}
